@@ -98,6 +98,8 @@ def trunc_rule(ctx, rule, only=None):
             continue  # centroid arithmetic and the codec itself: vectors neither returned nor stored
         if only is not None and not any(o in f.path for o in only):
             continue
+        if f.path in {h for _c, h in getattr(F, 'inlined', [])}:
+            continue  # a new helper: its code is checked where it is (virtually) inlined, with the caller's arguments
         for c in f.calls():
             if not c.callee.endswith('UnalignedVector::<Codec>::to_vec'):
                 continue
